@@ -141,7 +141,7 @@ fn dec_cfs(d: Dec) -> Vec<(u8, u8)> {
 }
 
 async fn read_as(d: Dec, pt: &mut PacketTransport<crate::conn::SimConn>) -> bool {
-    async fn rd<T: ZvtParser + Send>(pt: &mut PacketTransport<crate::conn::SimConn>) -> bool {
+    async fn rd<T: ZvtParser + Send + std::fmt::Debug>(pt: &mut PacketTransport<crate::conn::SimConn>) -> bool {
         pt.read_packet::<T>().await.is_ok()
     }
     match d {
@@ -161,7 +161,10 @@ async fn read_as(d: Dec, pt: &mut PacketTransport<crate::conn::SimConn>) -> bool
         Dec::FactoryReset => rd::<feig::sequences::FactoryResetResponse>(pt).await,
         Dec::ChangeHostConfiguration => rd::<feig::sequences::ChangeHostConfigurationResponse>(pt).await,
         Dec::WriteFile => rd::<feig::sequences::WriteFileResponse>(pt).await,
-        Dec::IoAck => rd::<zvt::io::Ack>(pt).await,
+        Dec::IoAck => {
+            // io::Ack has no Debug at this commit: read through write_packet_with_ack, as the library does
+            pt.write_packet_with_ack(&packets::Ack {}).await.is_ok()
+        }
         Dec::AnyA => rd::<AnyA>(pt).await,
         Dec::AnyB => rd::<AnyB>(pt).await,
         Dec::AnyC => rd::<AnyC>(pt).await,
